@@ -6,13 +6,16 @@ FIRST = {  # result of the FIRST run of my checks against the seed, recorded whe
     "C16-2": "missed", "C17-1": "missed", "C18-2": "missed", "C12-2": "missed", "C15-2": "missed", "C09-1": "missed", "C10-1": "missed",
     "C10-2": "missed", "C19-2": "missed", "C19-1": "exit 2 (vacuous-rule), no finding", "C06-2": "other property only (C01.a)",
     "C08-2": "other property only (C03.e)",
+    "C11-1": "missed", "C11-2": "missed", "C07-1": "missed", "C07-2": "missed", "C20-1": "missed", "C13-2": "missed",
 }
 ADDED = {"C01-2": "C01.d fresh-only cursor", "C02-2": "C09.d/C02.h owner re-arm protocol", "C04-1": "C04.b children-before-clear", "C04-2": "C04.g accessor family",
          "C05-2": "C05.e2 ring re-base", "C14-2": "C14.f unconditional owner stop", "C16-1": "C16.b2 conflating pending flag", "C16-2": "C16.h (= C17.a table)",
          "C17-1": "C17.c2 stop flag cleared only before start", "C18-2": "C18.a3 advance always re-arms", "C12-2": "C12.d sampled binding of the fresh branch",
          "C15-2": "C15.g handlers only report", "C09-1": "C09.b2 evaluating bracket", "C10-1": "C10.h marker order", "C10-2": "C10.h candidate table",
          "C19-2": "C19.g match scope", "C19-1": "C19.b full-ordering requirement (finding instead of exit 2)", "C06-2": "C06.e rank pass shared into C06",
-         "C08-2": "C08.f passive reader shared into C08"}
+         "C08-2": "C08.f passive reader shared into C08", "C11-1": "C11.f leaf registration", "C11-2": "C11.b2 modified-leaves guard",
+         "C07-1": "C07.c namespace-scope globals + thread_local markers", "C07-2": "C07.e intern lookups cover every field",
+         "C20-1": "C20.d all container captures", "C13-2": "C13.k slot-id bounds (slot ids are sparse)"}
 rows = []
 for d in sorted(glob.glob("/verif/seeded/*/meta.json")):
     m = json.load(open(d))
